@@ -10,7 +10,8 @@
                    samples and quantiles are still exact, Sum/Avg are compared with relative tolerance
                    1e-9 of the sum of magnitudes (float64 addition is not associative). *)
 From VLib Require Import CaseLib.
-From C06 Require Import Model.
+From Coq Require Import SpecFloat.
+From C06 Require Import Model ModelFloat.
 Open Scope Z_scope.
 
 Inductive fl := FNaN | FInf | FNum (m e : Z).
@@ -83,6 +84,11 @@ Record iout := IOut {
   o_buckets : list ibucket;         (* QPR.Aggregate(args)[i].Buckets in the order returned *)
   o_bne : Z }.                      (* ... .NotExists *)
 
+(* float observations: bit patterns (all NaNs printed as the canonical one) *)
+Record fbin := FBin { fb_key : key; fb_min : Z; fb_max : Z; fb_sum : Z; fb_total : Z }.
+Record fbucket := FBucket { fk_name : N; fk_mid : N; fk_val : Z }.
+Record fout := FOut { fo_bins : list fbin; fo_buckets : list fbucket }.
+
 Inductive case :=
 (* one aggregation of one search over the fractions at the leaves of t, per-fraction results merged
    in the shape of t by the real MergeQPRs *)
@@ -90,7 +96,13 @@ Inductive case :=
 (* histogram of one search *)
 | CHist (interval from to : N) (t : mtree) (impl : list (N * N))
 (* AggBin{mid, tok}.toKey() = key; fromKey(key) = (bmid, btok) (bytes as numbers) *)
-| CKey (mid : N) (tok : list N) (key : list N) (bmid : N) (btok : list N).
+| CKey (mid : N) (tok : list N) (key : list N) (bmid : N) (btok : list N)
+(* FLOAT path of one sum/min/max/avg/quantile aggregation: the fractions at the leaves of t (documents in the
+   order the search visits them, field values as IEEE bit patterns, map iteration order as witness), merged by
+   the real MergeQPRs in the shape of t; o = Min/Max/Sum bit patterns and Total of every bin, bucket values *)
+| CAggF (t : ftree) (q : query) (o : fout)
+(* does the search over the fractions of t fail (parseNum error: NaN / Inf / unparsable field token)? *)
+| CFErr (t : ftree) (q : query) (impl_err : bool).
 
 (* ---------------------------------------------------------------- model output = implementation output *)
 
@@ -162,8 +174,29 @@ Definition hist_agrees (interval from to : N) (t : mtree) (impl : list (N * N)) 
   (length impl =? length h)%nat &&
   forallb (fun bc => (0 <? snd bc)%N && (hlookup (fst bc) h =? snd bc)%N) impl.
 
+(* ---- float path: bit-exact replay of the recorded merge tree *)
+Definition bits_eqb (x : sf) (z : Z) : bool := bits_of_sf x =? z.
+
+Definition fbin_agrees (q : query) (t : ftree) (b : fbin) : bool :=
+  let s := bin_float q (fb_key b) t in
+  (f_total s =? fb_total b) && bits_eqb (f_min s) (fb_min b) && bits_eqb (f_max s) (fb_max b) &&
+  bits_eqb (f_sum s) (fb_sum b).
+
+Definition fbucket_agrees (q : query) (t : ftree) (k : fbucket) : bool :=
+  bits_eqb (fvalue (q_func q) (bin_float q (fk_mid k, fk_name k) t)) (fk_val k).
+
+(* every field value of the case is a valid binary64 (hypothesis of the float theorems, checked per case) *)
+Definition values_valid (t : ftree) : bool :=
+  forallb (fun d => match fd_fld d with Some (_, b) => sf_valid (sf_of_bits b) | None => true end) (ftree_docs t).
+
+Definition aggf_agrees (t : ftree) (q : query) (o : fout) : bool :=
+  negb (tree_err q t) && orders_ok q t && values_valid t &&
+  forallb (fbin_agrees q t) (fo_bins o) && forallb (fbucket_agrees q t) (fo_buckets o).
+
 Definition case_agrees (c : case) : bool :=
   match c with
+  | CAggF t q o => aggf_agrees t q o
+  | CFErr t q e => Bool.eqb (tree_err q t) e
   | CAgg scale exact t q o => agg_agrees scale exact t q o
   | CHist interval from to t impl => hist_agrees interval from to t impl
   | CKey mid tok key bmid btok =>
@@ -335,8 +368,76 @@ Definition hist_spec (interval from to : N) (t : mtree) (impl : list (N * N)) : 
                      (snd bc =? count (fun d => (bucket_of interval (d_mid d) =? fst bc)%N) D)%N) impl &&
   forallb (fun d => existsb (fun bc => (fst bc =? bucket_of interval (d_mid d))%N) impl) D.
 
+(* ---- float path, evaluated on the implementation's output, exact integer arithmetic in units 2^-1074
+   (every finite binary64 is an integer number of such units); no replay of the merge tree *)
+Definition zval (x : sf) : Z :=
+  match x with
+  | S754_finite s m e => (if s then -1 else 1) * Zpos m * 2 ^ (e + 1074)
+  | _ => 0
+  end.
+
+(* the values the selected documents of the whole corpus contribute to bin k *)
+Definition fbin_vals (q : query) (k : key) (D : list fdoc) : list sf :=
+  flat_map (fun d => if fselected q d && (bucket_of (q_interval q) (fd_mid d) =? fst k)%N &&
+                        (if q_group q then opt_is (fd_grp d) (snd k) else (snd k =? 0)%N)
+                     then match fd_fld d with Some (_, b) => [sf_of_bits b] | None => [] end
+                     else []) D.
+
+(* Sum against the exact sum S of the n values: with N = n + (number of fractions) + 2 roundings at most on
+   any path, |Sum - S| <= N * 2^-52 * sum|x| + N units (the second term covers an underflowing num * cnt);
+   an infinite or NaN Sum needs sum|x| >= 2^1023 *)
+Definition fsum_spec (vs : list sf) (nleaves : Z) (sumbits : Z) : bool :=
+  let zs := map zval vs in
+  let S := sum_list zs in let A := sum_abs zs in
+  let n := Z.of_nat (length vs) + nleaves + 2 in
+  let x := sf_of_bits sumbits in
+  if sf_finite x then Z.abs (zval x - S) * 2 ^ 52 <=? n * A + n * 2 ^ 52
+  else 2 ^ (1023 + 1074) <=? A.
+
+Definition fbin_spec (q : query) (D : list fdoc) (nleaves : Z) (b : fbin) : bool :=
+  let vs := fbin_vals q (fb_key b) D in
+  let zs := map zval vs in
+  (fb_total b =? Z.of_nat (length vs)) &&
+  match vs with
+  | [] => fb_sum b =? 0
+  | _ => (zval (sf_of_bits (fb_min b)) =? list_min 0 zs) && existsb (fun v => bits_of_sf v =? fb_min b) vs &&
+         (zval (sf_of_bits (fb_max b)) =? list_max 0 zs) && existsb (fun v => bits_of_sf v =? fb_max b) vs &&
+         fsum_spec vs nleaves (fb_sum b)
+  end.
+
+(* getAggBucket on the implementation's own bin: Sum / Min / Max as they are, Avg = RNE(Sum / float64(Total)) *)
+Definition fbucket_spec (q : query) (o : fout) (k : fbucket) : bool :=
+  match find (fun b => key_eqb (fb_key b) (fk_mid k, fk_name k)) (fo_bins o) with
+  | None => false
+  | Some b =>
+      if fb_total b =? 0 then fk_val k =? nan_bits
+      else match q_func q with
+           | FSum => fk_val k =? fb_sum b
+           | FMin => fk_val k =? fb_min b
+           | FMax => fk_val k =? fb_max b
+           | FAvg => fk_val k =? bits_of_sf (fdiv (sf_of_bits (fb_sum b)) (of_int (fb_total b)))
+           | _ => false
+           end
+  end.
+
+Definition aggf_spec (t : ftree) (q : query) (o : fout) : bool :=
+  let D := ftree_docs t in
+  let nl := Z.of_nat (length (ftree_leaves t)) in
+  keys_unique (map fb_key (fo_bins o)) &&
+  forallb (fbin_spec q D nl) (fo_bins o) && forallb (fbucket_spec q o) (fo_buckets o).
+
+(* the search fails iff a selected document (with the group token, when grouped) has a field token that
+   is not a finite number *)
+Definition ferr_spec (t : ftree) (q : query) (e : bool) : bool :=
+  Bool.eqb e (existsb (fun d => fselected q d &&
+                               (if q_group q then negb (is_none (fd_grp d)) else true) &&
+                               match fd_fld d with Some (_, b) => negb (bits_finite b) | None => false end)
+                      (ftree_docs t)).
+
 Definition case_spec_ok (c : case) : bool :=
   match c with
+  | CAggF t q o => aggf_spec t q o
+  | CFErr t q e => ferr_spec t q e
   | CAgg scale exact t q o => agg_spec scale exact t q o
   | CHist interval from to t impl => hist_spec interval from to t impl
   | CKey mid tok key bmid btok => (bmid =? mid)%N && list_eqb N.eqb btok tok
